@@ -30,11 +30,12 @@ import AdaptaVerif.Lemmas.MakeFeasibleLog
 import AdaptaVerif.Lemmas.MakeFeasibleInv
 import AdaptaVerif.Lemmas.MakeFeasibleDrop
 import AdaptaVerif.Lemmas.MakeFeasibleNoc
+import AdaptaVerif.Lemmas.MakeFeasibleEq
 namespace AdaptaVerif.Props.C07MakeFeasible
 open AdaptaVerif.Model.MakeFeasible AdaptaVerif.Model.Vpsc
 open AdaptaVerif.Model.Compound (Dim Rect CC mkFixedRel)
 open AdaptaVerif.Lemmas.MakeFeasibleLog AdaptaVerif.Lemmas.MakeFeasibleInv
-open AdaptaVerif.Lemmas.MakeFeasibleDrop AdaptaVerif.Lemmas.MakeFeasibleNoc
+open AdaptaVerif.Lemmas.MakeFeasibleDrop AdaptaVerif.Lemmas.MakeFeasibleNoc AdaptaVerif.Lemmas.MakeFeasibleEq
 open AdaptaVerif.Spec.Vpsc (Feasible PosCycle)
 open AdaptaVerif.Lemmas.VpscFlag (toC)
 
@@ -62,6 +63,22 @@ theorem makeFeasible_accepted_hold (n : Nat) (vx vy : Array (Rat × Rat × Rat))
   | y =>
     obtain ⟨g, _, hg, hc⟩ := h.2.1.wit
     exact ⟨g, fun i hi => by rw [hg i (by rw [h.2.2.2.2] at *; exact hi)]; rfl, hc⟩
+
+/-- **kept_equalities_exact**: with non-zero scales (they are all 1 in makeFeasible) the SAME witness vector
+    satisfies every kept inequality to −1e-10 and every kept EQUALITY exactly (`slack = 0`): accepted alignment,
+    distribution, equality-separation and fixed-relative constraints hold exactly at the returned node positions
+    (through `Hist`, `Final`, `final_eq` of the IncSolver model, applied at in-range indices only). -/
+theorem kept_equalities_exact (n : Nat) (vx vy : Array (Rat × Rat × Rat)) (items : List Item)
+    (hwf : itemsWf vx.size vy.size items = true)
+    (hsx : ∀ i : Nat, i < vx.size → (vx[i]!).2.2 ≠ 0) (hsy : ∀ i : Nat, i < vy.size → (vy[i]!).2.2 ≠ 0)
+    (hclean : (makeFeasible n vx vy items).combineFlags = #[])
+    (hesc : (makeFeasible n vx vy items).escaped = false)
+    (hfuel : (makeFeasible n vx vy items).fuelOut = false) (d : Dim) :
+    ∃ g : Array Rat, (∀ i : Nat, i < n → g[i]! = (makeFeasible n vx vy items).nodePos d i) ∧
+      ∀ c ∈ ((makeFeasible n vx vy items).dim d).valid,
+        ZERO_UPPERBOUND ≤ slackOf ((makeFeasible n vx vy items).dim d).vars g c ∧
+        (c.eq = true → slackOf ((makeFeasible n vx vy items).dim d).vars g c = 0) :=
+  makeFeasible_good_eq n vx vy items hwf hsx hsy hclean hesc hfuel d
 
 /-- the constraint of every accepted trial is kept in `valid` of its dimension until the end
     (`valid[dim]` is popped only for the constraint just rejected) -/
